@@ -14,3 +14,4 @@ open CaddyModel.C18
 #print axioms vars_matcher_compares_verbatim
 #print axioms vars_regexp_old_code_rescans
 #print axioms unclosed_limit_matches_source
+#print axioms outside_preserved_mod_escape
